@@ -217,6 +217,16 @@ class TOpt(Ty):
         return self.dt
 
 
+class TSent(TOpt):
+    """a value that is either the integer `sentinel` or a value of type t (e.g. dimensions: -1 or a list of ints);
+    the sentinel is represented by `none`"""
+
+    def __init__(self, t, sentinel):
+        TOpt.__init__(self, t)
+        self.sentinel = sentinel
+        self.name = 'sent%d<%s>' % (sentinel, t.name)
+
+
 class TRec(Ty):
     """a dict used as a record: literal keys with their own types (`fields`), each present or absent,
     plus an optional homogeneous remainder `rest` (TDict) for computed keys.  A computed key is assumed
